@@ -90,14 +90,17 @@ UpdateBg(c, f, pFFC, ties) ==
          : low \in {TLCEval({p \in Interior(c) :
                        pFFC \/ 10 * (f[p[1]][p[2]] - bg[p[1]][p[2]]) < bgw[p[1]][p[2]] \/ p \in ties})} })
 
-(* Detect(frame): aff = isAffectedByFFC(frame); tie, slop resolve the two float deviations *)
-Detect(f, aff, tie, slop) ==
+(* Detect(frame): aff = isAffectedByFFC(frame); TieSets and slop resolve the two float deviations: TieSets(tp) is   *)
+(* the set of candidate subsets of the tie pixels tp that are lowered (design runs: none; conformance: the subset *)
+(* read off the logged background - the code's float32 subtraction decides each tie pixel by its magnitude)       *)
+NoTies(tp) == {{}}
+Detect(f, aff, TieSets(_), slop) ==
   LET c == dc
       upd == c.dyn /\ ~aff
       cap == c.gap + 1
       c1 == (flCur + 1) % cap
-      tp == IF upd /\ tie /\ bgFrames > 0 THEN TiePix(c, f) ELSE {}
-  IN \E ties \in (IF Cardinality(tp) <= 10 THEN SUBSET tp ELSE {{}, tp}) :
+      tp == IF upd /\ bgFrames > 0 THEN TiePix(c, f) ELSE {}
+  IN \E ties \in TieSets(tp) :
      \E ub \in {IF upd THEN UpdateBg(c, f, prevFFC, ties) ELSE <<bg, bgw, 0, FALSE>>} :
      \E th1 \in {IF upd /\ ub[4] /\ bgFrames + 1 > c.preview
                  THEN (IF c.fixedCode THEN ClampMean(c, ub[3] + slop) ELSE LegacyClamp(c, ub[3] + slop))
